@@ -1,6 +1,7 @@
 CONSTANTS
   KPool <- KPoolC
   FPool <- FPoolC
+  BadPool <- BadPoolC
   MaxRes = 6
   Depth = 14
 SPECIFICATION Spec
